@@ -134,11 +134,32 @@ func c38(c *Ctx) {
 		}) {
 			c.MustFact(in, "counted-only-below-limit", Cmp(ld, token.LSS, ParamV("max")))
 		}
+		isInc := func(in ssa.Instruction) bool {
+			call, ok := in.(*ssa.Call)
+			return ok && CalleeX("sync/atomic", "AddUint32")(&call.Call) && FieldAddrOf(fNum)(call.Call.Args[0]) && ConstInt(1)(call.Call.Args[1])
+		}
 		for _, r := range returnsOf(sr) {
 			if ConstNil(r.Results[0]) {
 				c.MustFact(r, "admitted-only-below-limit", Cmp(ld, token.LSS, ParamV("max")))
+			} else {
+				// rejected only at or above the limit
+				c.MustFact(r, "rejected-only-at-limit", Cmp(ld, token.GEQ, ParamV("max")))
 			}
 		}
+		c.MustPass("admitted-request-is-counted", pathQuery{Fn: sr, AtEntry: true, Barrier: isInc, Target: func(in ssa.Instruction) bool {
+			r, ok := in.(*ssa.Return)
+			return ok && ConstNil(r.Results[0])
+		}}, nil)
+		er := c.fn("internal/xds/xdsclient", "ClusterRequestsCounter.EndRequest")
+		nDec := 0
+		for _, in := range instrsWhere(er, func(in ssa.Instruction) bool {
+			call, ok := in.(*ssa.Call)
+			return ok && CalleeX("sync/atomic", "AddUint32")(&call.Call) && FieldAddrOf(fNum)(call.Call.Args[0])
+		}) {
+			nDec++
+			c.ArgIs(in.(*ssa.Call), 1, "ended-request-uncounted-by-one", ConstNum(4294967295))
+		}
+		c.Expect(nDec == 1, nil, er, "one-decrement", "EndRequest does not decrement the request count exactly once")
 		f := c.fn(cimpl, "picker.Pick")
 		start := one(c, "StartRequest call", callsIn(f, Callee("internal/xds/xdsclient", "ClusterRequestsCounter.StartRequest")))
 		end := Callee("internal/xds/xdsclient", "ClusterRequestsCounter.EndRequest")
